@@ -78,6 +78,8 @@ type IPWalk struct {
 	seen    map[ipKey]bool
 	parent  map[ipKey]ipKey
 	TooDeep bool
+	// FailedIsNot: on this walk an error value known to be a failure is never equal to the named sentinel variable.
+	FailedIsNot func(sentinel string) bool
 	// StartFailed: the walk starts after the start nodes (call instructions) assuming each returned a non-nil error.
 	StartFailed bool
 	Reached     map[Node]bool
@@ -338,6 +340,30 @@ func (w *IPWalk) afterInstr(key ipKey, s ipState, push func(ipKey, ipState), ski
 			if !s.fx.feasible(s.b, k) {
 				continue
 			}
+			if w.FailedIsNot != nil {
+				// an error known to be a failure on this path is compared with a sentinel the client rules out
+				if c := edgeCond(s.b, k); c != nil && c.X != nil && c.Y != nil {
+					if eq, ok := c.holdsEq(); ok && eq {
+						skip := false
+						for _, pr := range [][2]ssa.Value{{c.X, c.Y}, {c.Y, c.X}} {
+							gl := globalLoad(pr[1])
+							if gl == "" || !isErrorType(pr[0].Type()) {
+								continue
+							}
+							failedVal := s.failed != nil && valueOfCall(pr[0], s.failed)
+							if kn, isNil := s.fx.known(pr[0]); kn && !isNil {
+								failedVal = true
+							}
+							if failedVal && w.FailedIsNot(gl) {
+								skip = true
+							}
+						}
+						if skip {
+							continue
+						}
+					}
+				}
+			}
 			st := s.st
 			if w.EdgeTransfer != nil {
 				st = w.EdgeTransfer(s.ctx, s.b, k, st)
@@ -351,7 +377,11 @@ func (w *IPWalk) afterInstr(key ipKey, s ipState, push func(ipKey, ipState), ski
 	case *ssa.Panic:
 		return
 	}
-	push(key, ipState{ctx: s.ctx, b: s.b, i: s.i + 1, failed: s.failed, okSite: s.okSite, st: s.st, fx: s.fx.afterInstr(s.b.Instrs[s.i])})
+	nfx := s.fx.afterInstr(s.b.Instrs[s.i])
+	if skipCallEntry && w.StartFailed {
+		nfx = s.fx // the start call's assumed failure is a fact about the value it just produced
+	}
+	push(key, ipState{ctx: s.ctx, b: s.b, i: s.i + 1, failed: s.failed, okSite: s.okSite, st: s.st, fx: nfx})
 }
 
 // valueOfCall reports whether v is (an extract of) the result of call instruction site.
